@@ -1428,7 +1428,14 @@ impl<'a> Parser<'a> {
         for enclosing in (0..self.compilers.len() - 1).rev() {
             let current = enclosing + 1;
             // Try and resolve the local in the enclosing compiler's scope.
-            if let Ok(index) = self.compilers[enclosing].resolve_local(name) {
+            let resolved = self.compilers[enclosing].resolve_local(name);
+            if let Err(CompilerError::ReadVarInInitialiser) = resolved {
+                // The innermost declaration of the name is the variable whose initialiser is
+                // being compiled: the name must not silently refer to a variable further out.
+                self.compiler_error(CompilerError::ReadVarInInitialiser);
+                return None;
+            }
+            if let Ok(index) = resolved {
                 // If we found it, mark as captured and propagate the upvalue to the compilers that
                 // are enclosed by the current one.
                 self.compilers[enclosing].locals[index as usize].is_captured = true;
